@@ -1,9 +1,2 @@
-"""What MANIFEST.json claims per property (text kept next to the code so it stays true)."""
-TB = "Trusted: Lean kernel (axioms propext, Classical.choice, Quot.sound only, audited per theorem), the correspondence check (sampled unless stated exhaustive), the harness printers and Lean driver runtime, the extractor for regenerated tables. "
-CLAIMS = {
- "C16": dict(
-   text="Lean theorems C16.step_holds / all_steps_hold: for every canvas size, bounding box, inversion flag and every sequence of operations with arbitrary integer arguments, each step keeps the buffer size, leaves every stored bit (padding included) outside clip ∩ footprint unchanged, and pixels/lines/filled rectangles set exactly the clipped footprint. The statement is the executable predicate Spec.Mono.check, which the run also evaluates on the real library's before/after buffers; model = code is checked by running both on generated operation sessions.",
-   note=TB + "Go int taken as unbounded (no 64-bit overflow).",
-   technique="Lean 4 proof (frame/paint calculus over DrawPixel, induction over loops and operation lists) + model/implementation correspondence"),
-}
+from props import CLAIMS
 NOT_YET = {}
